@@ -799,6 +799,25 @@ def w_nc_child(c):
             exp = amt
             break
     eq(fails, f'D-400 line 10b ({n:g} child, AGI {agi:g})', val(r, 'nc_d-400.10b') or 0.0, exp * n)
+    # real returns whose federal AGI sits some cents above a band limit: the N.C. forms work in whole dollars, so the
+    # band is the one of the amount printed on D-400 line 6
+    for i, (bound, amt) in enumerate(table[:-1] if len(table) > 1 else table):
+        for cents in (0.40, 0.60):
+            try:
+                rr, _a = c.tune(BNC, c.st(**{'nc_d-400__try_itemizing': 'no'}), lambda q: val(q, '1040.11'), bound + cents)
+            except Skip:
+                continue
+            if rr.exc is not None or not rr.verdict:
+                continue
+            l6, n10 = val(rr, 'nc_d-400.6'), val(rr, 'nc_d-400.10a')
+            if not n10:
+                continue
+            e2_ = 0
+            for b2, a2 in table:
+                if l6 <= b2:
+                    e2_ = a2
+                    break
+            eq(fails, f'D-400 line 10b ({n10:g} child, federal AGI {bound + cents:,.2f}, line 6 = {l6:g})', val(rr, 'nc_d-400.10b') or 0.0, e2_ * n10)
     return fails
 
 
